@@ -93,9 +93,12 @@ def run_unit(root, module, prop, tier, seed, rebaseline=False):
     rec["assumptions"] = scan_assumptions(text)
     fp = {it["item"]: it["sha256"] for it in meta["items"]}
     fp["__loops__"] = {it["item"]: it.get("loops", 0) for it in meta["items"] if it.get("kind") == "fn"}
+    fp["__dropped_hints__"] = list(meta.get("dropped_hints", []))
     rec["fingerprint"] = fp
     base = load_baseline(root).get(module, {})
-    changed = sorted(k for k in set(fp) | set(base) if k != "__loops__" and fp.get(k) != base.get(k))
+    changed = sorted(k for k in set(fp) | set(base) if k not in ("__loops__", "__dropped_hints__") and fp.get(k) != base.get(k))
+    # optional proof hints that found their anchor on the validated tree but not on this one
+    rec["hints_lost"] = sorted(set(fp["__dropped_hints__"]) - set(base.get("__dropped_hints__", []))) if base else []
     bl = base.get("__loops__", {})
     by_header = {it["item"] for it in meta["items"] if it.get("loops_by_header")}
     rec["skeleton_changed"] = sorted(k for k, v in fp["__loops__"].items() if k in bl and bl[k] != v and k not in by_header)
@@ -200,6 +203,17 @@ def classify_unit(rec, r, meta, base, changed, text):
         return
     # proof-skeleton guard: loop invariants are keyed by loop ordinal; if a function's number of loops differs from the
     # validated baseline, its invariants no longer describe its loops and a failed proof says nothing about the property.
+    hl = set(rec.get("hints_lost", []))
+    if hl:
+        # a proof hint lost its anchor (e.g. a renamed local): a failed proof in that function says nothing about the property
+        keep = [x for x in failed if x.get("where") not in hl]
+        if not keep:
+            rec["status"] = "undecided"
+            rec["reason"] = ("an optional proof hint of " + ", ".join(sorted(hl)) + " no longer finds its anchor: the failed obligations there "
+                             "are unproven, not violated (the hint must be re-anchored)")
+            return
+        failed = keep
+        rec["failed"] = keep
     sk = set(rec.get("skeleton_changed", []))
     if sk:
         keep = [x for x in failed if x.get("where") not in sk]
